@@ -303,6 +303,9 @@ package builder
 //@   requires@C13 gen != nil && GenInv(gen) && GenCtx(gen, ctx) && CallOK(ctx, sourceID, source, target)
 //@   ensures@C13 GenInv(gen) && GenCtx(gen, ctx)
 //@   ensures err == nil ==> result1 != nil
+//@   ensures@C11 old(ctx.UseConstructor && types.Identical(ctx.Conf.Source.T, source.T) && types.Identical(ctx.Conf.Target.T, target.T)) ==> !ctx.UseConstructor
+//@   ensures@C11 !old(ctx.UseConstructor && types.Identical(ctx.Conf.Source.T, source.T) && types.Identical(ctx.Conf.Target.T, target.T)) ==> ctx.UseConstructor == old(ctx.UseConstructor) && err == nil
+//@   at@C11 call gen.CallMethod#* assert ctx.Conf.Constructor == arg1
 
 //@ func UseUnderlyingTypeMethods.Build(gen, ctx, sourceID, source, target, errPath)
 //@   props C03
@@ -379,6 +382,8 @@ package builder
 //@ func Pointer.Build(gen, ctx, sourceID, source, target, errPath)
 //@   props C03
 //@   propagates
+//@   at@C11 call BuildByAssign#* assert !(ctx.UseConstructor && ctx.Conf.DefaultUpdate)
+//@   at@C11 call buildTargetVar#* assert ctx.UseConstructor && ctx.Conf.DefaultUpdate
 //@   requires@C13 self != nil
 //@   requires@C13 GenInv(gen) && GenCtx(gen, ctx)
 //@   ensures@C13 GenInv(gen) && GenCtx(gen, ctx)
@@ -397,6 +402,8 @@ package builder
 //@ func SourcePointer.Build(gen, ctx, sourceID, source, target, errPath)
 //@   props C03
 //@   propagates
+//@   at@C11 call BuildByAssign#* assert !(ctx.UseConstructor && ctx.Conf.DefaultUpdate)
+//@   at@C11 call buildTargetVar#* assert ctx.UseConstructor && ctx.Conf.DefaultUpdate
 //@   requires@C13 self != nil
 //@   requires@C13 GenInv(gen) && GenCtx(gen, ctx)
 //@   ensures@C13 GenInv(gen) && GenCtx(gen, ctx)
@@ -415,6 +422,8 @@ package builder
 //@ func TargetPointer.Build(gen, ctx, sourceID, source, target, errPath)
 //@   props C03
 //@   propagates
+//@   at@C11 call gen.Build#* assert !ctx.UseConstructor
+//@   at@C11 call buildTargetVar#* assert ctx.UseConstructor
 //@   requires@C13 self != nil
 //@   requires@C13 GenInv(gen) && GenCtx(gen, ctx)
 //@   ensures@C13 GenInv(gen) && GenCtx(gen, ctx)
@@ -460,6 +469,8 @@ package builder
 //@ func Struct.Assign(gen, ctx, assignTo, sourceID, source, target, errPath)
 //@   props C03
 //@   propagates
+//@   at@C10 call shouldCheckAgainstZero#1 assert arg1 == nextSource && arg2 == targetFieldType && arg3 == assignTo.Update && !arg4
+//@   at@C10 call shouldCheckAgainstZero#2 assert arg1 == functionCallSourceType && arg2 == targetFieldType && arg3 == assignTo.Update && arg4
 //@   requires@C13 self != nil
 //@   requires@C13 GenInv(gen) && GenCtx(gen, ctx)
 //@   ensures@C13 GenInv(gen) && GenCtx(gen, ctx)
